@@ -38,12 +38,66 @@ def dup_given_node_ids(sheets):
     return dup
 
 
-def judge(ctx, sheets, nontrivial, samples, label):
+DUP_MSG = "is used by more than one node of flow"
+
+
+def directed_dup_cases():
+    """Sheets in which one GIVEN `_nodeId` is written on several rows / reaches several nodes, with what the
+    property allows for each: 'one-node' = the rows are legitimately merged into ONE node (or end up in different
+    flows), the workbook compiles and is closed; 'two-nodes' = the rows cannot be one node, so the only
+    outcomes compatible with the property are 'does not compile' (what the code does since the repair of the
+    finding duplicate-given-node-id) or distinct identifiers - never a compiled flow with a repeated id.
+    They go through `judge` like every generated workbook; the outcome is recorded in the statistics."""
+    E, S = sheetgen.edge, "start"
+    N = "11111111-1111-4111-8111-111111111111"
+    msg = lambda rid, frm, text, **kw: dict({"type": "send_message", "row_id": rid, "edges": [E(frm=frm)], "arg": text}, **kw)
+    wait = lambda rid, frm, **kw: dict({"type": "wait_for_response", "row_id": rid, "edges": [E(frm=frm)], "arg": ""}, **kw)
+    blk = [msg("b1", S, "in block {{w}}", node_uuid=N)]
+    bdata = (["ID", "w"], [dict(ID="d1", w="one"), dict(ID="d2", w="two")])
+
+    def with_block(flows):
+        sheets = {"content_index": (flowutil.INDEX_HEADERS,
+                                    [dict(type="data_sheet", sheet_name="bdata"), dict(type="template_definition", sheet_name="blk")]
+                                    + [dict(type="create_flow", sheet_name=n) for n in flows]),
+                  "bdata": bdata, "blk": sheetgen.render_sheet(blk, None, "short")}
+        for n, rows in flows.items():
+            sheets[n] = sheetgen.render_sheet(rows, None, "short")
+        return sheets
+
+    ins = lambda rid, frm, row="d1": {"type": "insert_as_block", "row_id": rid, "edges": [E(frm=frm)], "arg": "blk",
+                                      "data_sheet": "bdata", "data_row_id": row}
+    one = lambda rows: flowutil.single_flow_workbook("f1", *sheetgen.render_sheet(rows, None, "short"))
+    return [
+        ("two-nodes", "two router rows", one([
+            {"type": "split_random", "row_id": "1", "edges": [E(frm=S)], "arg": "", "node_uuid": N}, wait("2", "1", node_uuid=N)])),
+        ("two-nodes", "message row then router row", one([msg("1", S, "hi", node_uuid=N), wait("2", "1", node_uuid=N)])),
+        ("two-nodes", "router row inside a loop", one([
+            {"type": "begin_for", "row_id": "L", "edges": [E(frm=S)], "arg": ["a", "b"], "loop_variable": ["x"]},
+            wait("w", "", node_uuid=N), {"type": "end_for", "row_id": "", "edges": [E()]}])),
+        ("two-nodes", "template with a node id inserted twice into one flow", with_block(
+            {"f1": [msg("1", S, "hi"), ins("i1", "1"), ins("i2", "i1", "d2")]})),
+        ("one-node", "two message rows merged through the node id", one([msg("1", S, "hi", node_uuid=N), msg("2", "1", "again", node_uuid=N)])),
+        ("one-node", "three rows merged through a node name", one([msg("1", S, "a", node_name="nn"), msg("2", "1", "b", node_name="nn"),
+                                                                   msg("3", "2", "c", node_name="nn")])),
+        ("one-node", "message row in a loop, merged over the iterations", one([
+            {"type": "begin_for", "row_id": "L", "edges": [E(frm=S)], "arg": ["a", "b", "c"], "loop_variable": ["x"]},
+            msg("", "", "say {{x}}", node_uuid=N), {"type": "end_for", "row_id": "", "edges": [E()]}])),
+        ("one-node", "template with a node id inserted once into each of two flows", with_block(
+            {"f1": [msg("1", S, "hi"), ins("i1", "1")], "f2": [msg("1", S, "ho"), ins("i1", "1", "d2")]})),
+    ]
+
+
+def judge(ctx, sheets, nontrivial, samples, label, outcome=None):
     v, m = ctx.v, ctx.model
     v.coverage["evaluations"] += 1
     r = flowutil.compile_workbook(sheets)
+    if outcome is not None:
+        outcome.append("compiles" if r[0] == "ok" else
+                       "rejected: duplicate node id" if DUP_MSG in str(r[-1]) else "does not compile: " + str(r[-1])[:80])
     if r[0] != "ok":
         ctx.count("does_not_compile")
+        if DUP_MSG in str(r[-1]):
+            ctx.count("rejected_duplicate_node_id")
         return
     doc = r[1]
     ctx.count("compiled")
@@ -134,6 +188,13 @@ def run(ctx):
     thorough = ctx.tier == "thorough"
     n = (15000 if thorough else 600) * ctx.scale
     nontrivial, samples = set(), []
+    # directed: one given node id on several rows (legitimately merged / impossible to merge)
+    directed = {}
+    for expect, what, sheets in directed_dup_cases():
+        out = []
+        judge(ctx, sheets, nontrivial, samples, "directed_dup_node_id", out)
+        directed[f"{what} [{expect}]"] = out[0]
+    ctx.stats["directed_duplicate_node_id"] = directed
     for i in range(n):
         rng = ctx.rng
         x = rng.random()
@@ -205,7 +266,9 @@ def run(ctx):
     ctx.v.coverage["rule"] = (
         "generated workbooks: core sheets (60% well-formed, 40% with repeated defaults/duplicate tests/re-targeting), sheets with "
         "merged rows, sugared sheets (loops, blocks, include_if, nesting), go_to cycles, joins, given and blank node ids, group "
-        "uuids, one or two flows per workbook, plain and template instantiation; every compiled document judged by closedb. "
+        "uuids, one or two flows per workbook, plain and template instantiation, 6% with one given node id forced on two rows, plus 8 "
+        "directed sheets with one given node id on several rows (merged into one node / impossible to merge: two router rows, "
+        "a router row in a loop, a template inserted twice); every compiled document judged by closedb. "
         "non-trivial = distinct (exits, actions) shape of a document with >= 3 nodes and a router")
     ctx.v.assumptions += [
         "an identifier of the output is GIVEN when the string occurs in a cell of the input workbook, otherwise INVENTED",
